@@ -46,6 +46,7 @@ type Op struct {
 	K             int      `json:"k,omitempty"`
 	Parts         []TP     `json:"parts,omitempty"`
 	Names         []string `json:"names,omitempty"`
+	Groups        []string `json:"groups,omitempty"`    // describegroups: the group ids
 	AllTopics     bool     `json:"allTopics,omitempty"` // metadata without a filter
 	Fault         *Fault   `json:"fault,omitempty"`
 	CancelAfterMs int      `json:"cancelAfterMs,omitempty"` // cancel the context this long after the request reached the broker (or after the call began when nothing is held)
@@ -111,6 +112,10 @@ type Script struct {
 	Steps      []Step                      `json:"steps"`
 	// brokers whose address refuses connections when the scenario starts (move kind "up" brings one up)
 	DownAtStart []int `json:"downAtStart,omitempty"`
+	// coordinator of individual group ids (default: Coord)
+	GCoord map[string]int `json:"gcoord,omitempty"`
+	// the journal of this scenario is judged by the monitor only (a kind of call Transport.tla does not describe)
+	NoConf bool `json:"noconf,omitempty"`
 	// SASL/PLAIN: the Transport authenticates with this user, the brokers require it
 	Sasl *SaslSpec `json:"sasl,omitempty"`
 }
